@@ -219,6 +219,17 @@ def _buildtree_on(chk, repo, ci, fn, src):
     pre, _ = unify(["$xm,$rm,$gm,$xp,$rp,$gp,$x1,$l1,$g1,$n1,$s1,$a1,$na1=self._BuildTree($x0,$r0,$g0,$H,$U,$V,$J-1,$E)"], region("F"), B0)
     if pre is not None:
         B0 = dict(pre)
+    # the leaf is ONE leapfrog step of the trajectory's step size: the base case integrates exactly once and has no loop (a leaf re-computed with another
+    # step size makes the trajectory's steps position dependent: the integrator is no longer reversible)
+    n_leap = sum(1 for t_, a_ in base for c_ in (ast.walk(a_) if not isinstance(a_, (ast.If, ast.While, ast.For)) else ast.walk(getattr(a_, "test", a_)))
+                 if isinstance(c_, ast.Call) and call_name(c_) == "self._Leapfrog")
+    loops_in_base = [n_ for n_ in g.nodes if n_.ast is not None and isinstance(n_.ast, (ast.While, ast.For)) and g.requires_edge(n_, bt, "T")] + \
+                    [n_ for n_ in g.nodes if n_.kind == "iter" and g.requires_edge(n_, bt, "T")]
+    base_block = next((x for x in ast.walk(fn) if isinstance(x, ast.If) and x.test is bt.ast), None)
+    has_loop = bool(loops_in_base) or (base_block is not None and any(isinstance(x, (ast.While, ast.For)) for st in base_block.body for x in ast.walk(st)))
+    if n_leap != 1 or has_loop:
+        problems.append(f"leaf: the base case calls the integrator {n_leap} time(s){' inside / next to a loop' if has_loop else ''}: a leaf is exactly one leapfrog step "
+                        f"of signed length v*epsilon (re-trying with a smaller step where the target is infinite replaces rejected leaves by points hugging the boundary)")
     b, fail = unify(leaf_patterns, base, B0)
     if b is None:
         problems.append(f"leaf: {msgs[fail]} (no statement of the base case matches `{leaf_patterns[fail]}` consistently with the others)")
@@ -576,6 +587,30 @@ def _transition_on(chk, repo, ci, iface, fn, src):
 
 
 # ------------------------------------------------------------------------------------------------ R5
+def _fold_class_literals(ci, fn):
+    """`self.NAME` / `Class.NAME` with NAME a class-level attribute bound to a number literal (and never stored on instances in the class) is the literal"""
+    from ..flow import clone
+    from ..canon import set_parents
+    lits = {}
+    for c in ci.mro():
+        for k_, v_ in c.class_attrs.items():
+            if k_ not in lits and isinstance(v_, ast.Constant) and isinstance(v_.value, (int, float)) and not isinstance(v_.value, bool):
+                lits[k_] = v_.value
+    stored = {path_of(t)[5:] for c in ci.mro() for _, _, f in c.all_functions() for n in ast.walk(f) if isinstance(n, (ast.Assign, ast.AugAssign))
+              for t in (n.targets if isinstance(n, ast.Assign) else [n.target]) if (path_of(t) or "").startswith("self.") and (path_of(t) or "").count(".") == 1}
+    names = {c.name for c in ci.mro()} | {"self", "type(self)"}
+
+    class T(ast.NodeTransformer):
+        def visit_Attribute(self, n):
+            self.generic_visit(n)
+            if isinstance(n.ctx, ast.Load) and n.attr in lits and n.attr not in stored and path_of(n.value) in names:
+                return ast.copy_location(ast.Constant(lits[n.attr]), n)
+            return n
+    out = T().visit(clone(fn))
+    out._rel = getattr(fn, "_rel", None)
+    return set_parents(ast.fix_missing_locations(out))
+
+
 def _dual_averaging(chk, repo, ci, iface):
     if iface == "exp":
         fn = repo.method(ci, "tune")[1]
@@ -630,7 +665,8 @@ def _dual_averaging(chk, repo, ci, iface):
             if hb is None or pn(hb) != "0":
                 extra.append("H_bar does not start at 0")
         st = repo.method(ci, "step")[1]
-        if "self._epsilon=self._epsilon_bar" not in _norm(st):
+        from .common import canon_keep as _ck
+        if "self._epsilon=self._epsilon_bar" not in _norm(st) and "self._epsilon=self._epsilon_bar" not in unparse(_ck(repo, ci, st, KEEP)).replace(" ", ""):
             extra.append("after the transition epsilon is not set to epsilon_bar")
         envs = end_states("_pre_sample", {pn("self._epsilon_bar=='unset'"): True})
         if not envs or not all(e_.get("self._epsilon_bar") is not None and pn(e_["self._epsilon_bar"]) == "self._epsilon" for e_ in envs):
@@ -646,11 +682,23 @@ def _dual_averaging(chk, repo, ci, iface):
         b, fail = unify(pats, S)
         extra = []
         if b is None:
+            # the same recursion in closed form: helpers inlined, named constants (locals or class attributes) folded, temporaries substituted
+            from .common import canon_keep
+            fv = _fold_class_literals(ci, canon_keep(repo, ci, fn, KEEP, subst=True))
+            SV = statements(fv, nested=True)
+            HB = "(1-1/($k+10))*$Hb+1/($k+10)*($del-$al/$nal)"
+            for eps_form in (f"$eps=np.exp($mu-np.sqrt($k)/0.05*$Hb)", f"$eps=np.exp($mu-np.sqrt($k)/0.05*({HB}))"):
+                bb, fail2 = unify([f"$Hb={HB}", eps_form, "$ebar=np.exp($k**(-0.75)*np.log($eps)+(1-$k**(-0.75))*np.log($ebar))",
+                                   "$mu=np.log(10*$eps)", "$ebar=1", "$Hb=0"], SV)
+                if bb is not None:
+                    b, fn, S = bb, fv, SV
+                    break
+        if b is None:
             extra.append(f"dual-averaging update `{pats[fail]}` not found")
         else:
             g = CFG(fn)
             fix = [n for n in g.nodes if n.ast is not None and n.kind == "stmt" and _norm(n.ast) == f"{b['eps']}={b['ebar']}"]
-            if len(fix) != 1 or not any(_norm(tt.ast) == f"{b['k']}==Nb+1" and lab == "T" for tt, lab in g.guards_of(fix[0])):
+            if len(fix) != 1 or not any(_norm(tt.ast) in (f"{b['k']}==Nb+1", f"Nb+1=={b['k']}", f"{b['k']}==1+Nb", f"1+Nb=={b['k']}") and lab == "T" for tt, lab in g.guards_of(fix[0])):
                 extra.append("step size is not frozen to epsilon_bar at the first iteration after burn-in")
             upd = [n for n in g.nodes if n.ast is not None and n.kind == "stmt" and _norm(n.ast).startswith(f"{b['Hb']}=(1-")]
             if upd and not any(_norm(tt.ast) == f"{b['k']}<=Nb" and lab == "T" for tt, lab in g.guards_of(upd[0])):
